@@ -163,3 +163,31 @@ PROPS.update({
         "assumptions": ["samples inside the declared width (otherwise the byte path wraps and the integer path does not; the encoder rejects such input: C17)"],
     },
 })
+
+PAR_RULE = ("par stream: corpus (the three confirmed failures of F8: read error, out-of-range sample, FLACENC_WORKERS=0) first, then random (config, PCM, plan) from one PRNG: "
+            "0..24 blocks of 32..256 samples with/without a short last block, 1..3 channels, all widths, 14 signal families; worker count from config (1,2,3,5,8,core count), from "
+            "FLACENC_WORKERS in {unset,'3','0','x','7' overridden by config}; fault plan in {none, read error at a random read index 0..N+1, out-of-range sample in a random block, both}; "
+            "integer or packed-byte delivery; schedule perturbation intensity {0,10,40,80}% (yield / 50us / 500us sleeps after protocol events, seeded). Every run is made through the "
+            "instrumented channels (events logged atomically with the channel operation) and its event log is REPLAYED through the Lean protocol model Par.step: each event must be an enabled "
+            "transition with matching buffer id / frame number / byte length, the final state must be final with every thread exited, and the result kind must equal the model's and the "
+            "single-thread run's. Direct oracles: watchdog (hang), catch_unwind, error kind vs single-thread, /proc/self/task before/after, helper-thread panic count, and for fault-free runs "
+            "bytes(mt) = bytes(single-thread) = bytes(second mt run without instrumentation) = bytes(frame-by-frame assembly). distinct = (workers, env, fault kind, intensity, block count)")
+
+PROPS.update({
+    "C05": {
+        "streams": {"quick": [("par", ["--cases", 150])], "thorough": [("par", ["--cases", 6000])], "search": [("par", ["--cases", 1500])]},
+        "diff_prefix": ["c05."], "oracle_fields": ["o_c05"], "rule": PAR_RULE,
+        "trusted_base": ["Model/Par.lean: hand model of the thread protocol of par.rs (atomic steps = channel operations and marked scheduling points), tied to the code by replaying every logged run",
+                         "crossbeam-channel bounded FIFO semantics and Mutex exclusion (atomicity of the modelled steps); the OS scheduler is not modelled: the theorems quantify over all interleavings of the modelled steps",
+                         "instrumented channels of cfg(flacenc_verif) (try_send/try_recv under the log lock) behave like the plain blocking operations; cross-checked by an uninstrumented second run per case",
+                         "that the per-frame encoder is a function of (config, block, frame number) only is C10/C09 (functional correspondence), not part of the protocol proof"],
+        "assumptions": ["source contract: read_samples fills the buffer with the samples it reports; a non-final read delivers a non-empty block (an empty data block is the hasher's stop token: C05_empty_block_hash_mismatch shows what a contract-violating source causes)"],
+    },
+    "C06": {
+        "streams": {"quick": [("par", ["--cases", 150])], "thorough": [("par", ["--cases", 6000])], "search": [("par", ["--cases", 1500])]},
+        "diff_prefix": ["c06."], "oracle_fields": ["o_c06"], "rule": PAR_RULE,
+        "trusted_base": ["Model/Par.lean (as C05)", "that a model thread in state `exited` corresponds to an OS thread that is gone is observed (/proc/self/task), not proved",
+                         "crossbeam-channel / Mutex / JoinHandle semantics"],
+        "assumptions": ["workers do not panic inside the per-frame encoder (C07/C17: verified configuration, every argument error is returned as Err)", "non-empty data blocks (as C05)"],
+    },
+})
